@@ -260,6 +260,40 @@ Section P3.
   Qed.
 End P3.
 
+
+(* ---------------------------------------------------------------- cursor().get over FromN vectors
+   (all sources governing the length: the formula is defined exactly below len()) *)
+Lemma from1_cursor_spec {A B} (f : N -> A -> B) s idx :
+  cursor_gets (f1_len s) (fun a b => Ok (f1_read_into f s a b)) cursor_new idx = Ok (map (F1 f s) idx).
+Proof.
+  apply (cursor_gets_spec (f1_len s) (F1 f s)); [| | |apply cinv_new].
+  - intros i Hi. unfold f1_len in Hi. destruct (get_lt_some s i Hi) as [v Hv]. unfold F1. rewrite Hv. eauto.
+  - apply F1_out_of_range.
+  - intros a b. now rewrite f1_read_into_spec.
+Qed.
+Lemma from2_cursor_spec {A1 A2 B} (f : N -> A1 -> A2 -> B) s1 s2 idx :
+  len s1 <= usize_max -> len s2 <= usize_max ->
+  cursor_gets (f2_len true true s1 s2) (fun a b => Ok (f2_read_into f true true s1 s2 a b)) cursor_new idx
+  = Ok (map (F2 f s1 s2) idx).
+Proof.
+  intros H1 H2. apply (cursor_gets_spec (f2_len true true s1 s2) (F2 f s1 s2)); [| | |apply cinv_new].
+  - intros i Hi. now apply (F2_defined f true true).
+  - intros i Hi. apply (F2_out_of_range f true true); auto.
+  - intros a b. now rewrite f2_read_into_spec.
+Qed.
+Lemma from3_cursor_spec {A1 A2 A3 B} (f : N -> A1 -> A2 -> A3 -> B) s1 s2 s3 idx :
+  cursor_gets (f3_len true true true s1 s2 s3) (fun a b => Ok (f3_read_into f true true true s1 s2 s3 a b)) cursor_new idx
+  = Ok (map (F3 f s1 s2 s3) idx).
+Proof.
+  apply (cursor_gets_spec (f3_len true true true s1 s2 s3) (F3 f s1 s2 s3)); [| | |apply cinv_new].
+  - intros i Hi. now apply (F3_defined f true true true).
+  - intros i Hi. unfold f3_len in Hi. apply (F3_none_ge f s1 s2 s3 i i); [lia|].
+    destruct (N.le_gt_cases (len s1) i); [left; apply get_none_iff; lia|].
+    destruct (N.le_gt_cases (len s2) i); [right; left; apply get_none_iff; lia|].
+    right; right. apply get_none_iff. lia.
+  - intros a b. now rewrite f3_read_into_spec.
+Qed.
+
 (* the hypotheses are satisfiable: unequal lengths, a non-governing source *)
 Example from2_example :
   f2_read_into (fun i a b => (Z.of_N i + a * b)%Z) true false [1;2;3]%Z [10;20]%Z 0 9 = [10; 41]%Z.
